@@ -9,7 +9,7 @@ from ..val import veq, clone, drop_nulls, has_marker
 ID = 'C02'
 NEED_BINS = True
 SIZES = {'quick': 10000, 'thorough': 1500000}
-REQUIRED_EVENTS = ['layer_docs_agreed', 'selection_events_checked', 'isolation_reruns']
+REQUIRED_EVENTS = ['layer_docs_agreed', 'selection_events_checked', 'isolation_reruns', 'file_streams_agreed']
 RULE = ('base streams of 1-4 documents, then 1-3 layers of 1-3 documents each; a layer document is derived by labelled edits from the model '
         'state of one of the documents it will hit, with or without document-level $match (one hit / many / none / {} / $invert / null=append), '
         'parents = the previous layer\'s documents (file-style) or a subset. Executed through successive MergeDocument calls with the hook '
@@ -105,13 +105,14 @@ def gen_case(rng, i, tier):
         st.apply(pid, [], d, model.Notes(null_policy='keep'))
         prev.append(pid)
     alive = True
+    filestyle = rng.random() < 0.4
     for li in range(rng.choice([1, 2, 2, 3])):
         cur_ids = []
         for di in range(rng.choice([1, 1, 2, 3])):
             if not alive:
                 break
             pid = 'l%dd%d' % (li, di)
-            parents = list(prev) if rng.random() < 0.8 else rng.sample(prev, rng.randint(1, len(prev)))
+            parents = list(prev) if (filestyle or rng.random() < 0.8) else rng.sample(prev, rng.randint(1, len(prev)))
             st.links[pid] = list(parents)
             anc = st.closure(pid)
             cands = [d for d in st.docs if d[0] in anc] or st.docs
@@ -159,7 +160,7 @@ def gen_case(rng, i, tier):
         if not alive or not cur_ids:
             break
         prev = cur_ids
-    return {'steps': steps, 'labels': sorted(labels), 'files': (i % 13 == 0)}
+    return {'steps': steps, 'labels': sorted(labels), 'files': filestyle or (i % 13 == 0)}
 
 
 def fixed_cases(tier):
@@ -347,14 +348,14 @@ def files_check(ctx, case, res, st):
             else:
                 return
     exp = [drop_nulls(d[1]) for d in st.docs]
-    if any(has_marker(x) or '$output' in json.dumps(x) for x in exp):
-        return
+    judge_output = not any(has_marker(x) or '$output' in json.dumps(x) for x in exp)
     d = ctx.casedir()
     name = 'a'
+    top = None
+    import random
     for i, layer in enumerate(layers):
         if i:
             name += '.l%d' % i
-        import random
         frng = random.Random(json.dumps([s['data'] for s in layer], sort_keys=True) + str(i))
         docs_ = [s['data'] for s in layer]
         fmt = frng.choice(['yaml', 'json', 'yml', 'toml'])
@@ -363,15 +364,26 @@ def files_check(ctx, case, res, st):
         top = '%s.%s' % (name, fmt)
         with open(os.path.join(d, top), 'w') as f:
             f.write(ser.write(fmt, docs_, frng))
-    r = cli([ctx.bin('bkl'), '-f', 'json', top], cwd=d)
-    res.execs += 1
     res.labels.add('via:files')
-    if r.rc != 0:
-        res.violate('files', 'bkl binary failed on a stream the library accepted: %s' % r.err[-200:].decode('utf-8', 'replace'), steps=steps)
+    # library: MergeFileLayers, then Documents() against the stream model (data and order; ids are file-derived)
+    resp = ctx.call([{'op': 'merge_layers', 'path': os.path.join(d, top)}, {'op': 'documents'}, {'op': 'output', 'format': 'json'}], res)
+    if resp is None:
+        ctx.cleanup_case(d)
+        res.violate('crash', 'worker died on layer files', steps=steps)
+        return
+    m, dr, o = resp['results']
+    if m['err'] is not None:
+        res.violate('files', 'MergeFileLayers failed on a stream the MergeDocument calls accepted: %s' % m['err'], steps=steps)
+    elif not veq([x['data'] for x in dr['docs']], [x[1] for x in st.docs]):
+        res.violate('files', 'documents after MergeFileLayers differ from the stream model (same layers through MergeDocument agree with it)', steps=steps,
+                    expect=[x[1] for x in st.docs], got=[x['data'] for x in dr['docs']])
     else:
-        got = [json.loads(l) for l in r.out.decode().splitlines() if l.strip()]
-        if not veq(got, exp, loose=True):
-            res.violate('files', 'multi-document files through the binary differ from the stream model', steps=steps, expect=exp, got=got)
-        else:
-            res.ev('files_agreed')
+        res.ev('file_streams_agreed')
+        if judge_output and case.get('i', 0) % 5 == 0:
+            r = cli([ctx.bin('bkl'), '-f', 'json', top], cwd=d)
+            res.execs += 1
+            if r.rc != 0 or (o['err'] is None and r.out != out_bytes(o)):
+                res.violate('files', 'bkl binary differs from the library on the same layer files (rc=%s)' % r.rc, steps=steps, stdout=r.out.decode('utf-8', 'replace'), stderr=r.err.decode('utf-8', 'replace')[-200:])
+            else:
+                res.ev('files_agreed')
     ctx.cleanup_case(d)
